@@ -279,7 +279,7 @@ def user_defined(rep: Report, rng: Rng):
 def run(rep: Report):
     user_defined(rep, Rng(rep.seed * 1000003 + 78))
     windowed_after_merge(rep, Rng(rep.seed * 1000003 + 77))
-    sweep(rep, Rng(rep.seed * 1000003 + 9), 3 if rep.tier == "quick" else 12, time.time() + budget(rep.tier, 70, 800), rep.tier == "thorough")
+    sweep(rep, Rng(rep.seed * 1000003 + 9), 8 if rep.tier == "quick" else 12, time.time() + budget(rep.tier, 70, 800), rep.tier == "thorough")
 
 
 def search(rep: Report):
